@@ -56,9 +56,24 @@ Definition negotiate (k : server_kind) (announced : option bytes) : bytes + exn 
 Inductive init_outcome := IRet | IRaise (e : exn).
 
 (* keepalive hint text -> number of milliseconds.  float() is modelled on the
-   grammar [+-]digits[.digits]; other spellings are HUnmodelled (the harness
-   skips them), a text float() rejects is outside every property *)
-Inductive hint := HAbsent | HValue (q : Q) | HUnmodelled.
+   grammar [+-]digits[.digits]; a text that float() certainly rejects (empty, or
+   containing an ASCII character that occurs in no float literal) is HMalformed:
+   the hint is discarded and the server goes on as if none had been sent; other
+   spellings (exponents, blanks, underscores, inf / nan, non-ASCII digits) are
+   HUnmodelled (the harness skips them) *)
+Inductive hint := HAbsent | HValue (q : Q) | HMalformed | HUnmodelled.
+
+(* ASCII characters that can occur in a text accepted by float(): digits, sign, point, exponent, underscore,
+   white space (str.strip), and the letters of "infinity" / "nan" in either case *)
+Definition float_char (c : ascii) : bool :=
+  let n := code c in
+  is_digit c
+  || existsb (Ascii.eqb c) ["+"; "-"; "."; "e"; "E"; "_"; " ";
+                            "i"; "n"; "f"; "t"; "y"; "a"; "I"; "N"; "F"; "T"; "Y"; "A"]%char
+  || ((9 <=? n) && (n <=? 13))%N || ((28 <=? n) && (n <=? 31))%N.
+
+Definition surely_not_float (s : bytes) : bool :=
+  is_nil s || existsb (fun c => (code c <? 128)%N && negb (float_char c)) s.
 
 Fixpoint all_digits (s : bytes) : bool :=
   match s with [] => true | c :: r => is_digit c && all_digits r end.
@@ -86,12 +101,13 @@ Definition parse_hint (t : option text) : hint :=
   | Some (Some s) =>
       match s with
       | c :: r =>
+          let other := if surely_not_float s then HMalformed else HUnmodelled in
           if Ascii.eqb c c_minus then
-            match parse_unsigned_dec r with Some q => HValue (Qopp q) | None => HUnmodelled end
+            match parse_unsigned_dec r with Some q => HValue (Qopp q) | None => other end
           else if Ascii.eqb c c_plus then
-            match parse_unsigned_dec r with Some q => HValue q | None => HUnmodelled end
-          else match parse_unsigned_dec s with Some q => HValue q | None => HUnmodelled end
-      | [] => HUnmodelled
+            match parse_unsigned_dec r with Some q => HValue q | None => other end
+          else match parse_unsigned_dec s with Some q => HValue q | None => other end
+      | [] => HMalformed
       end
   end.
 
@@ -139,5 +155,6 @@ Definition ka_after_init (configured : option Q) (r : init_result) : option Q :=
   match ir_hint r with
   | HAbsent => Some (ka_after configured None)
   | HValue q => Some (ka_after configured (Some q))
+  | HMalformed => Some (ka_after configured None)      (* discarded: as if no hint had been sent *)
   | HUnmodelled => None
   end.
